@@ -66,6 +66,37 @@ def evaluate(o, binary, cases, profile):
         if (code >> 4) in (1, 2, 3): o.nontrivial.add(c)
     return tagged
 
+def system_part(o):
+    """Third clause: the first HTLC of a payment with no earlier attempt on record, failing the declared-total test or with a too low
+    (also negative) relative expiry, is answered with the fee-or-expiry failure carrying the configured policy: real handle_htlc + lifecycle."""
+    from p_sys import run_traces, brief, reject_stories, story_case, walks, PAY_ENDINGS
+    r = SplitMix64(o.seed * 12 + 12)
+    T = o.tier == "thorough"
+    ok, log, binary = harness_build("dev")
+    cases = []
+    for i in range(96 if T else 24):
+        cases.append(story_case(r.fork(), ending=r.choice(PAY_ENDINGS), reject=(["low_expiry", "low_total"][i % 2], 0), npieces=1 + i % 3))
+    cases += reject_stories(r, 32 if T else 8)
+    cases += walks(r, 80 if T else 12)
+    try:
+        keep, verdicts, skewed = run_traces(binary, cases, "C12sys")
+    except RuntimeError as ex:
+        o.corr_failures.append(("could not run/evaluate system traces: %s" % str(ex)[-1500:], {})); return
+    for (c, t), v in zip(keep, verdicts):
+        bad, k_out, k_reply, mask, first, kf, npay, nsteps = v
+        o.evaluations += 1; o.traces_validated += 1
+        o.nontrivial.add("sys" + json.dumps(t["events"], sort_keys=True)[:3000])
+        if bad or k_reply:
+            o.internal.append("system trace %s: contract violated / simulated node differs" % c["family"]); continue
+        if mask & (1 << 12):
+            o.monitor_failures.append(("system trace %s: a fee-or-expiry failure does not carry the policy, or the first HTLC rejected by the gates was not answered with it (step %d): %s" % (
+                c["family"], first, " | ".join(brief(t, first)[-2:])[:700]), {"family": c["family"], "history": brief(t, first + 1), "trace": t}))
+        elif k_out:
+            o.corr_failures.append(("system trace %s: implementation and model differ at step %d: %s" % (c["family"], k_out, " | ".join(brief(t, k_out)[-2:])[:600]),
+                                    {"family": c["family"], "history": brief(t, k_out + 1), "trace": t}))
+    o.distribution["system_traces"] = len(keep)
+    o.rule += " PLUS system traces for the third clause: payment stories whose FIRST HTLC fails the declared-total test or has a too low / negative relative expiry, rejecting HTLCs at other positions, random walks."
+
 def run(tier, seed):
     o = Outcome("C12", tier, seed)
     o.rule = ("(base, ppm, delta, total, amount): boundary lattice {0,1,2,1e6+-1,2^32+-1,2^63+-1,2^64-1}x{...} with total at the exact threshold and +-1, "
@@ -85,6 +116,7 @@ def run(tier, seed):
             o.corr_failures.append(("could not evaluate cases: %s" % str(ex)[-1500:], {}))
             return finish(o)
         o.samples += [tagged[len(tagged) // 2], tagged[-1]]
+    system_part(o)
     def search():
         if tier == "thorough": return None
         o2 = Outcome("C12", "thorough", seed)
